@@ -16,6 +16,7 @@ content_id, property values (type(v) is type(orig)) and an == origin of the same
 from __future__ import annotations
 
 import base64
+import copy
 import enum
 import gc
 import itertools
@@ -291,7 +292,7 @@ def roundtrip(rec, case, build, hold, twin_mode, fmt, opt, fresh_batch=None, pre
     nodes = [n for _, n in walk(root)]
     payload = dumps(root, fmt, opt)
     if fresh_batch is not None:
-        enc = payload if fmt == "dict" else base64.b64encode(payload if isinstance(payload, bytes) else payload.encode("utf-8")).decode()
+        enc = copy.deepcopy(payload) if fmt == "dict" else base64.b64encode(payload if isinstance(payload, bytes) else payload.encode("utf-8")).decode()
         fresh_batch.append({"case": case, "fmt": fmt, "opt": opt, "cls": cls.__name__, "payload": enc,
                             "exp": [{k: v for k, v in e.items() if k != "origin"} for e in exp]})
     held = [nodes[k] for k in hold]
@@ -321,6 +322,10 @@ def roundtrip(rec, case, build, hold, twin_mode, fmt, opt, fresh_batch=None, pre
     compare(rec, case, got, exp, alive)
     if 0 in alive and not (got == alive[0]):
         rec.violation("C04|not-equal", case, "result != original although the root is alive")
+    if fmt == "dict":
+        # the caller owns the payload: scribbling over it after the load must not reach the loaded tree
+        _mutate_all(payload)
+        compare(rec, dict(case, payload_scribbled_after_load=True), got, exp, alive)
     del got, twin, held, alive
 
 
